@@ -46,7 +46,8 @@ def gen_script(rng, pv):
         steps.append(('comp', rng.choice([0, 1, 64, 256, 2 ** 31 - 1])))
     if pv >= 385:
         for _ in range(rng.choice([0, 0, 1, 2, 4])):
-            steps.append(('plugin', rng.randrange(2 ** 31), rng.choice(['minecraft:brand', 'x:y']), rng.choice([b'EXACT', bytes(rng.randrange(256) for _ in range(rng.randrange(0, 20)))])))
+            steps.append(('plugin', rng.choice([7, 7, 8, 0, rng.randrange(2 ** 31)]), rng.choice(['minecraft:brand', 'x:y']),          # (message ids may repeat: every request is answered)
+                          rng.choice([b'EXACT', bytes(rng.randrange(256) for _ in range(rng.randrange(0, 20)))])))
     rng.shuffle(steps)
     if rng.random() < 0.7:
         steps.append(('success',))
